@@ -476,6 +476,26 @@ def _pump_idle_sleep(seconds):
     sched.block(lambda: bool(tasks.queue) or tasks._stop_event.is_set(), ("pump.idle",))
 
 
+TIMERS = []  # fake timers created during the current execution
+
+
+class RecTimer:
+    """Recorded stand-in for threading.Timer inside scheduled executions."""
+
+    def __init__(self, interval, function, args=None, kwargs=None):
+        self.interval = interval
+        self.function = function
+        self.started = False
+        self.cancelled = False
+        TIMERS.append(self)
+
+    def start(self):
+        self.started = True
+
+    def cancel(self):
+        self.cancelled = True
+
+
 def install_library_shims():
     """Rebind threading/time as seen by the library to the cooperative versions (E2)."""
     import types
@@ -490,7 +510,7 @@ def install_library_shims():
 
     logging.disable(logging.CRITICAL)
     install_thread_patches()
-    ns = types.SimpleNamespace(Thread=_threading.Thread, Lock=CoopLock, Event=CoopEvent, Timer=_threading.Timer, current_thread=_threading.current_thread)
+    ns = types.SimpleNamespace(Thread=_threading.Thread, Lock=CoopLock, Event=CoopEvent, Timer=RecTimer, current_thread=_threading.current_thread)
     mysensors.transport.threading = ns
     mysensors.task.threading = ns
     serial.threaded.threading = ns
